@@ -133,7 +133,7 @@ var c01Atoms2 = []string{"MIT", "LicenseRef-a"}
 
 var c01Rich = []string{
 	"GPL-2.0", "GPL-2.0+", "GPL-3.0-only", "GPL-2.0-or-later WITH Bison-exception-2.2", "GPL-2.0 WITH Bison-exception-2.2",
-	"Apache-2.0-or-later", "Apache-1.1", "mit", "MIT-only", "LicenseRef-a", "DocumentRef-d:LicenseRef-a", "LGPL-2.1-only", "LicenseRef-A", "LicenseRef-MIT",
+	"Apache-2.0-or-later", "Apache-1.1", "mit", "MIT-only", "LicenseRef-a", "DocumentRef-d:LicenseRef-a", "LGPL-2.1-only", "LicenseRef-A", "LicenseRef-MIT", "Apache-1.1+",
 }
 
 var c01Entries = []string{
@@ -159,7 +159,7 @@ func init() {
 		Title:    "Satisfies = Boolean truth of the expression under the allowed list",
 		Explorer: "E1 bounded-exhaustive tree x labelling x allowed-list enumeration vs R-bool over the implementation's single-term verdicts",
 		Rule: "S1: every binary tree with <= N leaves, every AND/OR labelling, every leaf labelling over 4 atoms (2 licences, 2 references), rendered fully parenthesised, with minimal parentheses and with flat right chains / parenthesised left groups, x every non-empty subset of the atoms as allowed list; " +
-			"S3: every shape and AND/OR labelling with all-distinct leaves up to 7 (thorough 8) leaves x {all, all-but-one, single} allowed lists; S2: every tree <= 3 leaves over 14 rich terms (+, -only, -or-later, WITH, refs, case) x every allowed list up to a length bound over 16 overlapping entries (with repetition, re-spellings); " +
+			"S3: every shape and AND/OR labelling with all-distinct leaves up to 7 (thorough 8) leaves x {all, all-but-one, single} allowed lists; S2: every tree <= 3 leaves over 15 rich terms (+, -only, -or-later, WITH, refs, case) x every allowed list up to a length bound over 16 overlapping entries (with repetition, re-spellings); " +
 			"state = (expression text, allowed list), transition = one Satisfies call; non-trivial = the tree mentions >= 2 distinct terms and the truth assignment restricted to them is neither all-false nor all-true",
 		Assumptions: []string{
 			"truth of a leaf = exists allowed entry b with Satisfies(term,[b]) (the implementation's own single-term verdict, as the property states); the matching relation itself is C02's subject",
